@@ -1,4 +1,6 @@
 import Orca.Lemmas.Names
+import Orca.Gen.ApiOutline
+import Orca.Model.ApiOutlineSpec
 import Orca.Lemmas.Ops
 /-!
 # C29 — names stay attached to their entities
@@ -136,3 +138,10 @@ theorem c29_replacement_named_after_import (s : NSt) (impId uid : Nat) (field : 
   simp [getName_setName, this]
 
 end Orca.Names
+
+/-- **The tie to the source (regenerated on every run).** The control-and-call skeletons of the functions this property rests on:
+    `set_fn_name` is what M13's naming was transcribed from. A step moved, an early exit, guard, call or assignment added or removed breaks this obligation; renaming, comments and
+    formatting do not. -/
+theorem c29_naming_code_reviewed :
+    Orca.Gen.ApiOutline.set_fn_name = Orca.ApiOutlineSpec.set_fn_name :=
+  rfl
